@@ -1177,9 +1177,9 @@ impl Group for C08Onchain {
             // channel funding + unknown destination + non-segwit input through the approving approver: refused;
             // with a segwit input: reported, approved, signed; declining approver: declined
             c("node 333333;0;d;n;-;- 1000000000 d|tx 333333;0;d;n;-;- 1600000000 2 1 0 1 5001000:s N 3 2:3000000:1:0:1 W/1/w@1=1500000,F/21/w@-=500000,C0@-=3000000|tx 333333;0;d;n;-;- 1600000001 2 1 1 1 5001000:w N 3 2:3000000:1:0:1 W/1/w@1=1500000,F/21/w@-=500000,C0@-=3000000|tx 333333;0;d;n;-;- 1600000002 2 2 1 1 5001000:w N 3 2:3000000:1:0:1 W/1/w@1=1500000,F/21/w@-=500000,C0@-=3000000"),
-            // only policy-onchain-no-channel-push demoted to a warning: the push still counts as fee (3000 sat pushed on top of
-            // a 1000 sat fee exceeds 253 sat/kw; the same push with enough room under 333333 sat/kw passes and is counted)
-            c("node 253;0;w8;n;-;- 1000000000 d|tx 253;0;w8;n;-;- 1600000000 2 0 1 1 1001000:w N 1 0:1000000:1:3000000:1 C0@-=1000000|tx 253;0;w8;n;-;- 1600000001 2 0 1 1 1000100:w N 1 0:1000000:1:0:1 C0@-=1000000"),
+            // only policy-onchain-no-channel-push demoted to a warning: the push still counts as fee (900000 sat pushed on top of
+            // a 1000 sat fee exceeds 333333 sat/kw and is refused; a 3000 sat push has room and is counted)
+            c("node 333333;0;w8;n;-;- 1000000000 d|tx 333333;0;w8;n;-;- 1600000000 2 0 1 1 1001000:w N 1 0:1000000:1:900000000:1 C0@-=1000000|tx 333333;0;w8;n;-;- 1600000001 2 0 1 1 1000100:w N 1 0:1000000:1:0:1 C0@-=1000000"),
             c("node 333333;0;w8;n;-;- 1000000000 d|tx 333333;0;w8;n;-;- 1600000000 2 0 1 1 1001000:w N 1 0:1000000:1:3000000:1 C0@-=1000000"),
             // unknown output next to a wallet output, through the approver (declines)
             c("node 333333;0;d;n;F/1/w;- 1000000000 d|tx 333333;0;d;n;F/1/w;- 1600000000 2 2 1 1 100000:w N 3 - W/1/w@1=50000,F/2/w@-=20000,F/1/w@-=29000"),
